@@ -1149,4 +1149,219 @@ theorem linePosition_injective (line : Line) (j k : Nat) (h : line.position j = 
   cases line <;> simp [Line.position] at h <;> omega
 
 
+/-! ### the literal indexed carry loop equals the structural `carry` -/
+
+/-- `carry` with an explicit amount `c` arriving at the rightmost position -/
+def carryC : List Nat → List Nat → Nat → List Nat × Nat
+  | l :: ls, i :: is, c =>
+    let r := carryC ls is c
+    let i' := i + r.2
+    if i' == l then (0 :: r.1, 1) else (i' :: r.1, 0)
+  | _, _, c => ([], c)
+
+theorem carry_eq_carryC (ls is : List Nat) : carry ls is = carryC ls is 1 := by
+  induction ls generalizing is with
+  | nil => cases is <;> simp [carry, carryC]
+  | cons l ls ih =>
+    cases is with
+    | nil => simp [carry, carryC]
+    | cons i is => simp only [carry, carryC, ih is]
+
+/-- add `c` at position `pos` -/
+def addAt (l : List Nat) (pos c : Nat) : List Nat := l.set pos (l.getD pos 0 + c)
+
+theorem carryC_snoc (ls is : List Nat) (h : is.length = ls.length) (l i c : Nat) :
+    carryC (ls ++ [l]) (is ++ [i]) c =
+      ((carryC ls is (if i + c == l then 1 else 0)).1 ++ [if i + c == l then 0 else i + c],
+        (carryC ls is (if i + c == l then 1 else 0)).2) := by
+  induction ls generalizing is with
+  | nil =>
+    cases is with
+    | nil =>
+      simp only [List.nil_append, carryC]
+      split <;> simp_all
+    | cons _ _ => simp at h
+  | cons l' ls ih =>
+    cases is with
+    | nil => simp at h
+    | cons i' is =>
+      simp only [List.length_cons, Nat.add_right_cancel_iff] at h
+      simp only [List.cons_append, carryC, ih is h]
+      split <;> split <;> simp
+
+theorem getD_append_left' (l u : List Nat) (d : Nat) (h : d < l.length) :
+    (l ++ u).getD d 0 = l.getD d 0 := by
+  simp [List.getD_eq_getElem?_getD, List.getElem?_append_left h]
+
+theorem body_frame (S T L U : List Nat) (hlen : L.length = S.length) (d : Nat) (hd : d < L.length) :
+    carryLoopBody (S ++ T) (L ++ U) d = carryLoopBody S L d ++ U := by
+  have hS : d < S.length := by omega
+  simp only [carryLoopBody, getD_append_left' L U d hd, getD_append_left' S T d hS]
+  split
+  · have h1 : d < L.length := hd
+    have h2 : d - 1 < (L.set d 0).length := by simp; omega
+    rw [List.set_append_left _ _ h1]
+    rw [getD_append_left' _ U _ h2, List.set_append_left _ _ h2]
+  · rfl
+
+theorem carryLoopBody_length (S L : List Nat) (d : Nat) : (carryLoopBody S L d).length = L.length := by
+  simp only [carryLoopBody]; split <;> simp
+
+theorem foldl_frame (S T U : List Nat) (ds : List Nat) (L : List Nat) (hlen : L.length = S.length)
+    (hds : ∀ d ∈ ds, d < L.length) :
+    ds.foldl (carryLoopBody (S ++ T)) (L ++ U) = ds.foldl (carryLoopBody S) L ++ U := by
+  induction ds generalizing L with
+  | nil => rfl
+  | cons d ds ih =>
+    simp only [List.foldl_cons]
+    rw [body_frame S T L U hlen d (hds d (by simp))]
+    apply ih
+    · rw [carryLoopBody_length]; exact hlen
+    · intro d' hd'; rw [carryLoopBody_length]; exact hds d' (by simp [hd'])
+
+theorem addAt_zero (l : List Nat) (pos : Nat) : addAt l pos 0 = l := by
+  simp only [addAt, Nat.add_zero]
+  by_cases h : pos < l.length
+  · simp [List.getD_eq_getElem?_getD, List.getElem?_eq_getElem h]
+  · simp [List.set_eq_of_length_le (by omega : l.length ≤ pos)]
+
+theorem loop_suffix (b : Nat) : ∀ (B SB : List Nat), B.length = b → SB.length = b →
+    ∀ (A SA : List Nat), A.length = SA.length → 1 ≤ A.length → ∀ c : Nat,
+    ((List.range' A.length b).reverse).foldl (carryLoopBody (SA ++ SB))
+        (addAt (A ++ B) (A.length + b - 1) c) =
+      addAt A (A.length - 1) (carryC SB B c).2 ++ (carryC SB B c).1 := by
+  induction b with
+  | zero =>
+    intro B SB hB hSB A SA hA ha c
+    have : B = [] := List.length_eq_zero_iff.mp hB
+    subst this
+    have : SB = [] := List.length_eq_zero_iff.mp hSB
+    subst this
+    simp [carryC]
+  | succ b ih =>
+    intro B SB hB hSB A SA hA ha c
+    obtain ⟨B', y, rfl⟩ : ∃ B' y, B = B' ++ [y] := by
+      have hne : B ≠ [] := by intro h; simp [h] at hB
+      exact ⟨B.dropLast, B.getLast hne, (List.dropLast_concat_getLast hne).symm⟩
+    obtain ⟨SB', ly, rfl⟩ : ∃ SB' ly, SB = SB' ++ [ly] := by
+      have hne : SB ≠ [] := by intro h; simp [h] at hSB
+      exact ⟨SB.dropLast, SB.getLast hne, (List.dropLast_concat_getLast hne).symm⟩
+    simp only [List.length_append, List.length_cons, List.length_nil, Nat.zero_add,
+      Nat.add_right_cancel_iff] at hB hSB
+    rw [List.range'_concat, List.reverse_append]
+    simp only [List.reverse_cons, List.reverse_nil, List.nil_append, List.singleton_append,
+      List.foldl_cons, Nat.one_mul]
+    -- the state before the first body: pending carry added at the last position
+    have hpos : A.length + (b + 1) - 1 = (A ++ B').length := by simp; omega
+    have hstate : addAt (A ++ (B' ++ [y])) (A.length + (b + 1) - 1) c = (A ++ B') ++ [y + c] := by
+      rw [hpos, ← List.append_assoc]
+      simp [addAt, List.getD_eq_getElem?_getD]
+    rw [hstate]
+    have hd : A.length + b = (A ++ B').length := by simp; omega
+    have hSlen : (SA ++ SB').length = (A ++ B').length := by simp; omega
+    -- the first body, at position d = |A ++ B'|
+    have hbody : carryLoopBody (SA ++ (SB' ++ [ly])) ((A ++ B') ++ [y + c]) (A.length + b) =
+        addAt (A ++ B') (A.length + b - 1) (if y + c == ly then 1 else 0) ++
+          [if y + c == ly then 0 else y + c] := by
+      have g1 : ((A ++ B') ++ [y + c]).getD (A.length + b) 0 = y + c := by
+        rw [hd]; simp [List.getD_eq_getElem?_getD]
+      have g2 : (SA ++ (SB' ++ [ly])).getD (A.length + b) 0 = ly := by
+        rw [← List.append_assoc, hd, ← hSlen]; simp [List.getD_eq_getElem?_getD]
+      simp only [carryLoopBody, g1, g2]
+      by_cases heq : y + c = ly
+      · simp only [heq, beq_self_eq_true, if_true]
+        have s1 : ((A ++ B') ++ [ly]).set (A.length + b) 0 = (A ++ B') ++ [0] := by
+          rw [hd]; simp
+        rw [s1]
+        have hlt : A.length + b - 1 < (A ++ B').length := by rw [← hd]; omega
+        rw [getD_append_left' _ _ _ hlt, List.set_append_left _ _ hlt]
+        rfl
+      · have : (y + c == ly) = false := by simp [heq]
+        simp only [this, Bool.false_eq_true, if_false, addAt_zero]
+    rw [hbody]
+    -- the remaining positions do not touch the last cell
+    rw [← List.append_assoc SA SB' [ly]]
+    rw [foldl_frame (SA ++ SB') [ly] _ _ _ (by simp [addAt]; omega)
+      (by
+        intro d hd'
+        simp only [List.mem_reverse, List.mem_range'_1] at hd'
+        simp [addAt]; omega)]
+    rw [ih B' SB' hB hSB A SA hA ha, carryC_snoc SB' B' (by omega)]
+    simp [List.append_assoc]
+
+/-- The literal indexed loop computes the same as the structural `carry`. -/
+theorem carryLoop_eq_carry (l0 i0 : Nat) (ls is : List Nat) (h : is.length = ls.length) :
+    carryLoop (l0 :: ls) (i0 :: is) = (i0 + (carry ls is).2) :: (carry ls is).1 := by
+  have := loop_suffix ls.length is ls h rfl [i0] [l0] rfl (by simp) 1
+  simp only [List.length_cons, List.length_nil, Nat.zero_add, List.singleton_append] at this
+  unfold carryLoop
+  simp only [List.length_cons]
+  have e : ls.length + 1 - 1 = ls.length := by omega
+  have e' : 1 + ls.length - 1 = ls.length := by omega
+  rw [e]
+  rw [e'] at this
+  have hst : (i0 :: is).set ls.length ((i0 :: is).getD ls.length 0 + 1) = addAt (i0 :: is) ls.length 1 := rfl
+  rw [hst, this, carry_eq_carryC]
+  simp [addAt]
+
+theorem nextLoop_eq_next (it : ShapeIter) (h : it.indexes.length = it.shape.length) :
+    it.nextLoop = it.next := by
+  obtain ⟨shape, indexes, finished⟩ := it
+  simp only at h
+  unfold ShapeIter.nextLoop ShapeIter.next
+  cases finished with
+  | true => simp
+  | false =>
+    cases shape with
+    | nil =>
+      cases indexes with
+      | nil => simp
+      | cons _ _ => simp at h
+    | cons l0 ls =>
+      cases indexes with
+      | nil => simp at h
+      | cons i0 is =>
+        simp only [List.length_cons, Nat.add_right_cancel_iff] at h
+        simp [carryLoop_eq_carry l0 i0 ls is h]
+
+
+theorem leBounds_length (ls is : List Nat) (h : leBounds ls is = true) : is.length = ls.length := by
+  induction ls generalizing is with
+  | nil => cases is <;> simp_all [leBounds]
+  | cons l ls ih =>
+    cases is with
+    | nil => simp [leBounds] at h
+    | cons i is =>
+      simp only [leBounds, Bool.and_eq_true] at h
+      simp [ih is h.2]
+
+/-! ### tensor sources -/
+
+/-- a tensor source resolves every index inside its shape, and different indexes to different
+    cells (for a view: C02's `view_get_some_iff_inBounds` and `view_get_injective`) -/
+structure TSource.WellFormed {κ : Type} (src : TSource κ) : Prop where
+  resolves : ∀ idx, inBounds src.shape idx = true → ∃ c, src.cell idx = some c
+  injective : ∀ (p q : List Nat) (c : κ), inBounds src.shape p = true → inBounds src.shape q = true →
+    src.cell p = some c → src.cell q = some c → p = q
+
+theorem ofTensor_wellFormed {ν α : Type} [DecidableEq ν] (shape : Shape ν) (data : List α)
+    (t : Tensor ν α) (ht : Tensor.tryFrom shape data = some t) :
+    (TSource.ofTensor t).WellFormed := by
+  have hs : (TSource.ofTensor t).shape = shape.map (·.2) := by
+    unfold Tensor.tryFrom at ht
+    split at ht
+    · simp at ht
+    · simp only [Option.some.injEq] at ht; subst ht; rfl
+  constructor
+  · intro idx hb
+    rw [hs] at hb
+    exact ⟨_, (ofTensor_cell shape data t ht idx hb).1⟩
+  · intro p q c hp hq h1 h2
+    rw [hs] at hp hq
+    rw [(ofTensor_cell shape data t ht p hp).1] at h1
+    rw [(ofTensor_cell shape data t ht q hq).1] at h2
+    apply ravel_injective _ p q hp hq
+    simp only [Option.some.injEq] at h1 h2
+    omega
+
 end EasyMl.Iter
